@@ -1149,7 +1149,11 @@ impl LineBuffer {
             #[expect(clippy::unnecessary_to_owned)]
             for line in self.buf[start..end].to_string().split('\n') {
                 let max = line.len() - line.trim_start().len();
-                let deleting = min(max, amount);
+                let mut deleting = min(max, amount);
+                // leading white space may be multi-byte: stay on a char boundary
+                while !line.is_char_boundary(deleting) {
+                    deleting -= 1;
+                }
                 self.drain(index..index + deleting, Direction::default(), cl);
                 if self.pos >= index {
                     if self.pos.saturating_sub(index) < deleting {
